@@ -127,6 +127,11 @@ class Runner:
         extra = {}
         if res.get("op") == "select" and res.get("rows") and self._marker.get(h):
             extra["seen"] = int(res["rows"][0][1][1])
+        exp = getattr(self, "_expect", {}).pop(h, None)
+        if exp is not None and not res.get("err") and not res.get("panic"):
+            # the content the operation delivered: the committed one (the version count) or something else (-2, what the
+            # specification calls a read during a write)
+            extra["seen"] = self.fver if (res.get("rows") or []) == exp else -2
         if "l" in evs and "L" not in evs:
             nrows = int(res.get("n") or 0) + len(res.get("rows") or [])
             self.emit(h, "rlock_err", rows=nrows, haserr=bool(res.get("err")), reads=sum(1 for x in evs if x in ("P", "p")))
@@ -134,9 +139,14 @@ class Runner:
             self.emit(h, "done", **extra)
         return "done"
 
-    def start(self, h, op, gate_on=None):
+    def start(self, h, op, gate_on=None, expect=None):
+        """expect: the committed rows (as the harness encodes them) this operation must deliver if it delivers any"""
         if h in self.failed_open:
             return "done"
+        if not hasattr(self, "_expect"):
+            self._expect = {}
+        if expect is not None:
+            self._expect[h] = expect
         self._marker[h] = op.get("table") == "meta"
         r = self.agent(h).call(cmd="start", h=h, gate=True, gate_on=gate_on or [], op=dict(op, id=1))
         return self._observe(h, r)
